@@ -327,8 +327,7 @@ class World(EventDispatcher):
         if immediate:
             # Remove components one by one, so that removal events are
             # dispatched and handlers unsubscribed
-            for component_type in tuple(self._entities[entity]):
-                self.remove_component(entity, component_type)
+            self._detach_all(entity)
 
         else:
             self._dead_entities.add(entity)
@@ -358,7 +357,17 @@ class World(EventDispatcher):
         # callbacks may safely touch the entity again (e.g. remove a
         # sibling component) and one that raises leaves the remaining
         # components attached and the tables consistent
-        for component_type in tuple(self._entities[entity]):
+        self._detach_all(entity)
+
+    def _detach_all(self, entity: Hashable):
+        """Remove all the components of an entity, one by one."""
+        row = self._entities[entity]
+        for component_type in tuple(row):
+            # A callback may have got rid of the entity meanwhile, and even
+            # have created a new one under the same identifier: that one is
+            # not to be touched
+            if self._entities.get(entity) is not row:
+                break
             self.remove_component(entity, component_type)
 
     def remove_component(self, entity: Hashable, component_type: type[C]):
